@@ -133,6 +133,17 @@ def Record.keys (r : Record) : List String := r.map Prod.fst
 
 def Record.has (r : Record) (k : String) : Bool := (r.get? k).isSome
 
+/-- `mapM` in `Option`, spelled out (first failure wins). -/
+def mapOpt {α β : Type} (f : α → Option β) : List α → Option (List β)
+  | [] => some []
+  | a :: rest =>
+    match f a with
+    | none => none
+    | some b =>
+      match mapOpt f rest with
+      | none => none
+      | some bs => some (b :: bs)
+
 /-! ### Tables (generated from the live code) -/
 
 /-- One row of `dataclasses.fields(cls)`. -/
@@ -236,7 +247,7 @@ def decodeField (T : Tables) (sub : String → Sub) (j : Record) (fs : FieldSpec
     | none => (T.decDefaultOf fs.name).map (fun d => (fs.name, d))
 
 def decode (T : Tables) (sub : String → Sub) (j : Record) : Option Record :=
-  T.fields.mapM (decodeField T sub j)
+  mapOpt (decodeField T sub j) T.fields
 
 /-! ### The decidable side condition on tables -/
 
@@ -263,11 +274,11 @@ def tablesOk (T : Tables) (ex : List String) : Bool :=
   T.encSkip.all (fun f => match T.spec? f with
     | some fs => !fs.init || (T.decDefaultOf f).isSome
     | none => true) &&
-  -- whatever the decoder insists on is always written
-  T.decRequired.all (fun k => T.alwaysKeys.contains k) &&
-  -- the probe and the model agree on which init fields have a fallback
+  -- whatever the live decoder insists on is always written …
+  T.decRequired.all (fun k => T.alwaysKeys.contains k && (T.decDefaultOf k).isNone) &&
+  -- … and so is every init field for which the decoder has no fallback
   T.fields.all (fun fs => !fs.init || T.encSkip.contains fs.name ||
-      ((T.decDefaultOf fs.name).isSome != T.decRequired.contains fs.name)) &&
+      (T.decDefaultOf fs.name).isSome || !T.optional.contains fs.name) &&
   -- schema: emitted keys ⊆ properties, required ⊆ always-emitted
   T.emittedKeys.all (fun k => T.schemaProps.contains k) &&
   T.schemaRequired.all (fun k => T.alwaysKeys.contains k)
@@ -320,7 +331,7 @@ def listSub (s : Sub) : Sub where
     | .list xs => .list (xs.map s.enc)
     | v => v
   dec := fun v => match v with
-    | .list xs => (xs.mapM s.dec).map Value.list
+    | .list xs => (mapOpt s.dec xs).map Value.list
     | _ => none
 
 /-! ### Channels: a tagged union, dispatched on `basis` by the decoder -/
@@ -455,6 +466,59 @@ def deviceTablesOk (D : DeviceTables) (exVirtual : List String) : Bool :=
   (Record.get? D.virtual.consts "is_virtual" == some (.bool true)) &&
   (D.physical.cls != D.virtual.cls)
 
+/-! ### Executable versions of the theorems' hypotheses
+
+The driver evaluates these on every record it is sent, so the harness knows (and reports) how many
+generated objects lie inside the domain the theorems speak about. -/
+
+def wellTypedB (T : Tables) (r : Record) : Bool :=
+  (r.keys == T.names) &&
+  T.fields.all (fun fs => fs.init || (r.get? fs.name == fs.dflt)) &&
+  T.fields.all (fun fs => !fs.init || !T.encSkip.contains fs.name ||
+    (r.get? fs.name == T.decDefaultOf fs.name))
+
+def avoidsExemptB (T : Tables) (ex : List String) (r : Record) : Bool :=
+  r.all (fun kv => !ex.contains kv.1 || !elided T kv)
+
+def eomOkB (C : ChannelTables) : Value → Bool
+  | .null => true
+  | .obj e => wellTypedB C.eom e
+  | _ => false
+
+def channelRecOkB (C : ChannelTables) (T : Tables) (r : Record) : Bool :=
+  wellTypedB T r && r.all (fun kv => kv.1 != "eom_config" || eomOkB C kv.2)
+
+def channelValOkB (C : ChannelTables) : Value → Bool
+  | .obj ((ck, .str cls) :: rc) =>
+    ck == classKey &&
+    (match C.find? cls with
+     | some T => channelRecOkB C T rc
+     | none => false)
+  | _ => false
+
+def channelListOkB (C : ChannelTables) : Value → Bool
+  | .list xs => xs.all (channelValOkB C)
+  | _ => false
+
+def layoutListOkB (D : DeviceTables) : Value → Bool
+  | .list xs => xs.all (fun x => match x with
+      | .obj l => wellTypedB D.layout l
+      | _ => false)
+  | _ => false
+
+/-- The default noise model is absent, or survives its own codec (computed, not assumed). -/
+def noiseValOkB (noise : Sub) (v : Value) : Bool :=
+  v == .null || (noise.enc v != .null && noise.dec (noise.enc v) == some v)
+
+def deviceRecOkB (D : DeviceTables) (noise : Sub) (T : Tables) (ex : List String) (r : Record) : Bool :=
+  wellTypedB T r && avoidsExemptB T ex r &&
+  r.all (fun kv =>
+    if kv.1 = "channels" then channelListOkB D.chans kv.2
+    else if kv.1 = "dmm_objects" then channelListOkB D.chans kv.2
+    else if kv.1 = "pre_calibrated_layouts" then layoutListOkB D kv.2
+    else if kv.1 = "default_noise_model" then noiseValOkB noise kv.2
+    else true)
+
 /-! ### Noise model
 
 `NoiseModel.__init__` decides the active noise types from which parameters are *truthy*,
@@ -470,6 +534,8 @@ structure NoiseTables where
   zeroed : List String
   /-- The `__init__` parameters, in order. -/
   params : List String
+  /-- Their defaults in the signature (`None`, `()`, `False`). -/
+  defaults : List (String × Value)
   /-- `_DIFF_NOISE_PARAMS` (NoiseModel name ↦ SimConfig name). -/
   simRename : List (String × String)
   deriving Repr
@@ -478,6 +544,8 @@ def lookupStr (l : List (String × String)) (k : String) : Option String :=
   match l with
   | [] => none
   | (a, b) :: rest => if a = k then some b else lookupStr rest k
+
+def NoiseTables.dfl (N : NoiseTables) (p : String) : Value := (Record.get? N.defaults p).getD .null
 
 def NoiseTables.paramsOf (N : NoiseTables) (t : String) : List String :=
   match N.typeParams.find? (·.1 = t) with
@@ -499,33 +567,42 @@ def activeTypes (N : NoiseTables) (args : Record) : List String :=
       | none => acc
     else acc) []
 
-/-- `_find_relevant_params(noise_types, state_prep_error, amp_sigma, laser_waist)`. -/
-def relevantParams (N : NoiseTables) (types : List String) (statePrep ampSigma laserWaist : Value) :
-    List String :=
-  let base := types.foldl (fun acc t =>
-      let acc := acc ++ N.paramsOf t
-      if t = "doppler" || (t = "amplitude" && ampSigma != .num 0) ||
-          (t = "SPAM" && statePrep != .num 0)
-      then acc ++ ["runs", "samples_per_run"] else acc) []
-  if laserWaist = .null then base.filter (· ≠ "laser_waist") else base
+/-- The condition under which `_find_relevant_params` adds `runs` and `samples_per_run`. -/
+def needsRuns (types : List String) (statePrep ampSigma : Value) : Bool :=
+  types.contains "doppler" || (types.contains "amplitude" && ampSigma != .num 0) ||
+    (types.contains "SPAM" && statePrep != .num 0)
+
+/-- Membership in `_find_relevant_params(noise_types, state_prep_error, amp_sigma, laser_waist)`
+(python builds a set; only membership is ever used). -/
+def isRelevant (N : NoiseTables) (types : List String) (statePrep ampSigma laserWaist : Value)
+    (p : String) : Bool :=
+  (types.any (fun t => (N.paramsOf t).contains p) ||
+    ((p = "runs" || p = "samples_per_run") && needsRuns types statePrep ampSigma)) &&
+  !(p = "laser_waist" && laserWaist == .null)
 
 def Record.getD (r : Record) (k : String) (d : Value) : Value := (r.get? k).getD d
 
-/-- The parameters as stored by `__init__` (after the `or 0.0`), followed by `noise_types`
-first — i.e. the dataclass fields of the instance. -/
-def noiseInit (N : NoiseTables) (args : Record) : Record :=
-  let types := activeTypes N args
-  let stored := args.map (fun kv =>
-    if N.zeroed.contains kv.1 && !kv.2.truthy then (kv.1, Value.num 0) else kv)
-  ("noise_types", .list (types.map .str)) :: stored
+/-- Strings of a `.list` of `.str`. -/
+def strList : Value → List String
+  | .list ts => ts.filterMap (fun v => match v with | .str s => some s | _ => none)
+  | _ => []
 
-/-- `relevant_params` of a stored noise model. -/
-def noiseRelevant (N : NoiseTables) (nm : Record) : List String :=
-  let types := match nm.get? "noise_types" with
-    | some (.list ts) => ts.filterMap (fun v => match v with | .str s => some s | _ => none)
-    | _ => []
-  relevantParams N types (nm.getD "state_prep_error" (.num 0)) (nm.getD "amp_sigma" (.num 0))
-    (nm.getD "laser_waist" .null)
+/-- `param_vals[p] = param_vals[p] or 0.0` for the rate-like parameters. -/
+def normParam (N : NoiseTables) (kv : String × Value) : String × Value :=
+  if N.zeroed.contains kv.1 && !kv.2.truthy then (kv.1, Value.num 0) else kv
+
+/-- The instance `__init__` builds: `noise_types` followed by every parameter as stored
+(i.e. the dataclass fields of the instance, in order). -/
+def noiseInit (N : NoiseTables) (args : Record) : Record :=
+  ("noise_types", .list ((activeTypes N args).map .str)) :: args.map (normParam N)
+
+/-- The constructor arguments as a record, from a valuation of the parameter names. -/
+def argsOf (N : NoiseTables) (vals : String → Value) : Record := N.params.map (fun p => (p, vals p))
+
+/-- `relevant_params` of a stored noise model (`__repr__`, `from_noise_model`, decoder). -/
+def noiseRelevant (N : NoiseTables) (nm : Record) (p : String) : Bool :=
+  isRelevant N (strList (nm.getD "noise_types" (.list []))) (nm.getD "state_prep_error" (.num 0))
+    (nm.getD "amp_sigma" (.num 0)) (nm.getD "laser_waist" .null) p
 
 /-- `NoiseModel._to_abstract_repr`: `asdict`, drop `with_leakage`, zip rates and operators. -/
 def noiseEncode (nm : Record) : Record :=
@@ -539,20 +616,16 @@ def noiseDecode (N : NoiseTables) (j : Record) : Record :=
   let pairs := match j.get? "eff_noise" with | some (.list xs) => xs | _ => []
   let rates := pairs.filterMap (fun p => match p with | .list [a, _] => some a | _ => none)
   let opers := pairs.filterMap (fun p => match p with | .list [_, b] => some b | _ => none)
-  let types := match j.get? "noise_types" with
-    | some (.list ts) => ts.filterMap (fun v => match v with | .str s => some s | _ => none)
-    | _ => []
+  let types := strList (j.getD "noise_types" (.list []))
   let withLeakage := types.contains "leakage"
-  let relevant := (relevantParams N types (j.getD "state_prep_error" (.num 0))
-      (j.getD "amp_sigma" (.num 0)) (j.getD "laser_waist" .null)).filter
-      (fun p => p ≠ "eff_noise_rates" && p ≠ "eff_noise_opers" && p ≠ "with_leakage")
-  let args : Record := N.params.map (fun p =>
-    if p = "eff_noise_rates" then (p, .list rates)
-    else if p = "eff_noise_opers" then (p, .list opers)
-    else if p = "with_leakage" then (p, .bool withLeakage)
-    else if relevant.contains p then (p, j.getD p .null)
-    else (p, .null))
-  noiseInit N args
+  let rel := isRelevant N types (j.getD "state_prep_error" (.num 0)) (j.getD "amp_sigma" (.num 0))
+      (j.getD "laser_waist" .null)
+  noiseInit N (argsOf N (fun p =>
+    if p = "eff_noise_rates" then .list rates
+    else if p = "eff_noise_opers" then .list opers
+    else if p = "with_leakage" then .bool withLeakage
+    else if rel p then j.getD p .null
+    else N.dfl p))
 
 def noiseSub (N : NoiseTables) : Sub where
   enc := fun v => match v with
@@ -563,18 +636,24 @@ def noiseSub (N : NoiseTables) : Sub where
     | _ => none
 
 /-- Decidable well-formedness of the noise tables: `_PARAM_TO_NOISE_TYPE` is the inverse of
-`_NOISE_TYPE_PARAMS`, no parameter belongs to two types, and the SimConfig renaming is injective
-and does not collide with an unrenamed parameter. -/
+`_NOISE_TYPE_PARAMS`, no parameter belongs to two types, `leakage` is governed by `with_leakage`
+alone, and the SimConfig renaming is injective and does not collide with an unrenamed parameter. -/
 def noiseTablesOk (N : NoiseTables) : Bool :=
   decide ((N.typeParams.map Prod.fst).Nodup) &&
-  decide ((N.paramType.map Prod.fst).Nodup) &&
-  decide ((N.typeParams.flatMap Prod.snd).Nodup) &&
   N.typeParams.all (fun tp => tp.2.all (fun p => lookupStr N.paramType p == some tp.1)) &&
   N.paramType.all (fun pt => (N.paramsOf pt.2).contains pt.1) &&
   N.paramType.all (fun pt => N.params.contains pt.1) &&
   decide (N.params.Nodup) &&
-  decide ((N.simRename.map Prod.snd).Nodup) &&
-  N.simRename.all (fun ab => !N.params.contains ab.2 && !(N.simRename.map Prod.fst).contains ab.2)
+  !N.params.contains "noise_types" &&
+  (N.paramsOf "leakage" == ["with_leakage"]) &&
+  -- the names `_find_relevant_params` hard-codes belong to the types it tests
+  (N.paramsOf "SPAM").contains "state_prep_error" &&
+  (N.paramsOf "amplitude").contains "amp_sigma" &&
+  (N.paramsOf "amplitude").contains "laser_waist" &&
+  !N.zeroed.contains "with_leakage" &&
+  N.defaults.all (fun kv => !kv.2.truthy) &&
+  decide (((N.params.filter (· ≠ "with_leakage")).map (fun p => (lookupStr N.simRename p).getD p)).Nodup) &&
+  !((N.params.map (fun p => (lookupStr N.simRename p).getD p)).contains "noise")
 
 def NoiseTablesOk (N : NoiseTables) : Prop := noiseTablesOk N = true
 
@@ -585,33 +664,34 @@ instance (N : NoiseTables) : Decidable (NoiseTablesOk N) := by
 
 def simName (N : NoiseTables) (p : String) : String := (lookupStr N.simRename p).getD p
 
-/-- `SimConfig.from_noise_model`: the relevant parameters under their SimConfig names
-(`with_leakage` is popped; `temperature` is divided by 10⁶ in `__post_init__`;
-`laser_waist` defaults to ∞ — modelled as absent — when `amplitude` is active). -/
-def simFromNoise (N : NoiseTables) (nm : Record) : Record :=
-  let relevant := noiseRelevant N nm
-  ("noise", nm.getD "noise_types" (.list [])) ::
-  (relevant.filter (· ≠ "with_leakage")).map (fun p =>
-    let v := nm.getD p .null
-    (simName N p, if p = "temperature" then (match v with | .num q => .num (q / 1000000) | v => v) else v))
+/-- µK → K in `SimConfig.__post_init__` (exact over ℚ; the float rounding is not modelled). -/
+def scaleTemp (p : String) (down : Bool) (v : Value) : Value :=
+  if p = "temperature" then
+    match v with
+    | .num q => .num (if down then q / 1000000 else q * 1000000)
+    | v => v
+  else v
 
-/-- `SimConfig.to_noise_model`: relevant parameters read back under their SimConfig names
-(`with_leakage` is the property `"leakage" in noise`; `temperature` times 10⁶). -/
+/-- `SimConfig.from_noise_model`: the keyword arguments it passes — `noise` and the relevant
+parameters under their SimConfig names (`with_leakage` is popped; `laser_waist`, when not
+relevant although `amplitude` is active, is set to ∞, which `to_noise_model` reads back as `None`:
+modelled as an absent entry). -/
+def simFromNoise (N : NoiseTables) (nm : Record) : Record :=
+  ("noise", nm.getD "noise_types" (.list [])) ::
+  ((N.params.filter (fun p => noiseRelevant N nm p && p != "with_leakage")).map (fun p =>
+    (simName N p, scaleTemp p true (nm.getD p .null))))
+
+/-- `SimConfig.to_noise_model`: the relevant parameters read back under their SimConfig names
+(`with_leakage` is the property `"leakage" in noise`; `temperature` back to µK). -/
 def simToNoise (N : NoiseTables) (sc : Record) : Record :=
-  let types := match sc.get? "noise" with
-    | some (.list ts) => ts.filterMap (fun v => match v with | .str s => some s | _ => none)
-    | _ => []
-  -- `laser_waist_ = None if isinf(laser_waist)`; an absent entry is the ∞ default
-  let relevant := relevantParams N types (sc.getD (simName N "state_prep_error") (.num 0))
-      (sc.getD "amp_sigma" (.num 0)) (sc.getD "laser_waist" .null)
-  let args : Record := N.params.map (fun p =>
-    if relevant.contains p then
-      if p = "with_leakage" then (p, .bool (types.contains "leakage"))
-      else
-        let v := sc.getD (simName N p) .null
-        (p, if p = "temperature" then (match v with | .num q => .num (q * 1000000) | v => v) else v)
-    else (p, .null))
-  noiseInit N args
+  let types := strList (sc.getD "noise" (.list []))
+  let rel := isRelevant N types (sc.getD (simName N "state_prep_error") (.num 0))
+      (sc.getD (simName N "amp_sigma") (.num 0)) (sc.getD (simName N "laser_waist") .null)
+  noiseInit N (argsOf N (fun p =>
+    if rel p then
+      if p = "with_leakage" then .bool (types.contains "leakage")
+      else scaleTemp p false (sc.getD (simName N p) .null)
+    else N.dfl p))
 
 end Codec
 end Pulser
